@@ -1,0 +1,18 @@
+//go:build verif
+
+package config
+
+// VerifRaw, when set, receives a copy of the allow / trace lists GetConf has collected
+// right before they are passed to cleanTrace (verification builds only).
+var VerifRaw func(allow, trace []string)
+
+func verifRaw(allow, trace []string) {
+	if VerifRaw != nil {
+		VerifRaw(append([]string{}, allow...), append([]string{}, trace...))
+	}
+}
+
+// VerifCleanTrace exposes cleanTrace to the verification harness.
+func VerifCleanTrace(allow, trace []string) ([]string, []string) {
+	return cleanTrace(allow, trace)
+}
